@@ -29,7 +29,7 @@ fn probe_profile() -> Profile {
     p.w_rewards = 10;
     for w in [
         &mut p.w_resolve, &mut p.w_stray, &mut p.w_recover, &mut p.w_feewd, &mut p.w_breaker, &mut p.w_resume, &mut p.w_config,
-        &mut p.w_validator, &mut p.w_owner, &mut p.w_advance, &mut p.w_traffic, &mut p.w_oracle_toggle, &mut p.w_query,
+        &mut p.w_validator, &mut p.w_owner, &mut p.w_advance, &mut p.w_traffic, &mut p.w_oracle_toggle, &mut p.w_query, &mut p.w_outage,
     ] {
         *w = 0;
     }
@@ -114,7 +114,7 @@ pub fn check_c10_case(c: &C10Case, agg: &mut Agg) -> Result<(), String> {
     {
         let mut z = e.clone();
         let k = c.probes.len() as u32;
-        for mode in [ResumeMode::ZeroLst, ResumeMode::Raw(3 + k, 2 + k % 3, k), ResumeMode::Zero, ResumeMode::Same] {
+        for mode in [ResumeMode::One(0, 7 + k), ResumeMode::One(1 + (k % 2) as u8, 1 + k), ResumeMode::ZeroLst, ResumeMode::Raw(3 + k, 2 + k % 3, k), ResumeMode::Zero, ResumeMode::One(0, k), ResumeMode::Same] {
             z.run_op(&Op::Resume { user: Caller::Admin, mode });
             if let Some(m) = own(&z) {
                 return Err(format!("resume sequence after the history: {m}"));
